@@ -98,4 +98,31 @@ theorem fit_terminates (c : Csr Rat) (hw : ∀ p, 0 ≤ c.data.getD p 0) (values
   · exact ⟨instantiateVars_length values, fun _ hx => hx, fun _ _ _ => rfl⟩
   · simp
 
+/-- with a bound on the number of sweeps the loop needs no more fuel than the bound plus one -/
+theorem propLoop_some_of_bound (step key : List Int → List Int) :
+    ∀ (fuel m t : Nat) (seen : List (List Int)) (labels : List Int), m < fuel →
+      propLoop step key fuel (some m) t seen labels ≠ none := by
+  intro fuel
+  induction fuel with
+  | zero => intro m t seen labels h; omega
+  | succ fuel ih =>
+    intro m t seen labels h
+    unfold propLoop
+    split
+    · simp
+    · rename_i hc
+      simp only [Bool.or_eq_true, beq_iff_eq, not_or] at hc
+      cases m with
+      | zero => exact absurd rfl hc.1
+      | succ m =>
+        simp only [Option.map_some, Nat.add_sub_cancel]
+        exact ih m _ _ _ (by omega)
+
+/-- ★ `Propagation.fit` as the code calls it (`n_iter < 0` ↦ at most `n + 1` sweeps) terminates with fuel `n + 2` -/
+theorem fit_default_terminates (c : Csr Rat) (values : List Int) (a : PropArgs) (nIterArg : Option Nat)
+    (ha : a.nIter = some (sweepLimit nIterArg values.length)) :
+    fit c values a (sweepLimit nIterArg values.length + 1) ≠ none := by
+  rw [fit_eq, ha]
+  exact propLoop_some_of_bound _ _ _ _ _ _ _ (by omega)
+
 end SkNet.Vote
